@@ -766,6 +766,37 @@ func (c *EvalCtx) evalCall(e *Expr) TVal {
 		}
 		w.declFun("time_ns", fmt.Sprintf("(declare-fun time_ns (%s) Int)", w.SortOf(v.Type)))
 		return c.mk("(time_ns "+v.T+")", sInt, ti)
+	case "big":
+		// mathematical value of a *big.Int
+		v := c.eval(e.Args[0])
+		return c.mk(sel(fr.heapCur(c.stOf(v), w.heap("BigVal", "(Array Int Int)")), v.T), sInt, ti)
+	case "u256":
+		// mathematical value of a *uint256.Int
+		v := c.eval(e.Args[0])
+		if v.Type == nil {
+			c.errf("u256() of untyped value")
+			return c.mk("0", sInt, ti)
+		}
+		pt, ok := v.Type.Underlying().(*types.Pointer)
+		if !ok {
+			c.errf("u256() needs a *uint256.Int")
+			return c.mk("0", sInt, ti)
+		}
+		w.declFun("u256_of", "(declare-fun u256_of ((Array Int Int)) Int)")
+		arr := fr.load(c.stOf(v), ObjAddr{Ref: v.T, Elem: pt.Elem()}, pt.Elem())
+		return c.mk("(u256_of "+arr.T+")", sInt, ti)
+	case "decint":
+		v := c.eval(e.Args[0])
+		if v.Type == nil {
+			c.errf("decint() of untyped value")
+			return c.mk("0", sInt, ti)
+		}
+		w.declFun("dec_bigint", fmt.Sprintf("(declare-fun dec_bigint (%s) Int)", w.SortOf(v.Type)))
+		return c.mk("(dec_bigint "+v.T+")", sInt, ti)
+	case "unixsec":
+		v := c.eval(e.Args[0])
+		w.declFun("time_ns", fmt.Sprintf("(declare-fun time_ns (%s) Int)", w.SortOf(v.Type)))
+		return c.mk("(div (time_ns "+v.T+") 1000000000)", sInt, ti)
 	case "bitlen":
 		v := c.eval(e.Args[0])
 		return c.mk(sel(fr.heapCur(c.stOf(v), w.heap("BitLen", "(Array Int Int)")), "(s-arr "+v.T+")"), sInt, ti)
